@@ -5,7 +5,7 @@
    amplitude <b|psi>, or the dense element <b|O|b'> of an MPO with b_q := out_q*d + in_q.
    The model functions are those of Model/MPSAlg.v, tied to /repo by tools/props/c11.py. *)
 From Coq Require Import List Ring ZArith Bool.
-From EV Require Import Model.TransferMat Model.MPSAlg Model.Zip Proofs.TransferMat Proofs.MPSAlg Proofs.MPSInner Proofs.ZipProofs.
+From EV Require Import Model.TransferMat Model.MPSAlg Model.Zip Proofs.TransferMat Proofs.MPSAlg Proofs.MPSInner Proofs.ZipProofs Model.Bath Proofs.ExpectProofs.
 Import ListNotations.
 
 (* add_factors (direct sum [A|B], diag(A,B), ..., [A;B]) represents the sum: for every number of
@@ -94,3 +94,31 @@ Theorem C11_zip_contract_premises_satisfiable :
    | None => false
    end = true /\ dr (last ex_top (zeros3 gi_ops 0 0 0)) = 1 /\ dr (last ex_bot (zeros3 gi_ops 0 0 0)) = 1).
 Proof. exact (conj qr_identity_gauge_ok (conj qr_left_identity_ok zip_example)). Qed.
+
+(* MPO.expect (the left environment new_left_bath swept over the whole chain, read at its single entry) is the dense
+   expectation value  sum_{i,j} conj(<i|psi>) <i|O|j> <j|psi>  - for every number of sites, all bond dimensions, every
+   physical dimension, over every commutative ring with a ring involution.  No normalisation or canonical form is
+   assumed.  (Bath adjointness of C02 moves the contraction to the right environment, which is the double sum over
+   index strings by induction over the sites.) *)
+Theorem C11_expect_spec : forall (K : Type) (Ko : RingOps K),
+  ring_theory (k0 Ko) (k1 Ko) (kadd Ko) (kmul Ko) (ksub Ko) (kopp Ko) (@eq K) ->
+  (forall a b, kconj Ko (kadd Ko a b) = kadd Ko (kconj Ko a) (kconj Ko b)) ->
+  (forall a b, kconj Ko (kmul Ko a b) = kmul Ko (kconj Ko a) (kconj Ko b)) ->
+  kconj Ko (k0 Ko) = k0 Ko -> kconj Ko (k1 Ko) = k1 Ko ->
+  forall (d : nat) (As Ws : list (T3 K)),
+  chain_ok (1, 1, 1) As Ws (1, 1, 1) ->
+  forall (x : K) (fa fw : list nat -> K),
+  lbath Ko d As Ws (ones3 Ko) 0 0 0 = x ->
+  (forall i, In i (strings (repeat d (length As))) -> amp Ko As i = Some (fa i)) ->
+  (forall i j, In i (strings (repeat d (length As))) -> In j (strings (repeat d (length As))) ->
+     amp Ko Ws (pair_idx d i j) = Some (fw (pair_idx d i j))) ->
+  x = sumL Ko (strings (repeat d (length As))) (fun i => sumL Ko (strings (repeat d (length As))) (fun j =>
+        kmul Ko (kmul Ko (kconj Ko (fa i)) (fw (pair_idx d i j))) (fa j))).
+Proof. exact expect_spec. Qed.
+
+Theorem C11_expect_spec_premises_satisfiable :
+  chain_ok (1, 1, 1) ex_bot ex_top (1, 1, 1) /\
+  forallb (fun i => match amp gi_ops ex_bot i with Some _ => true | None => false end) (strings (repeat 2 2)) = true /\
+  forallb (fun i => forallb (fun j => match amp gi_ops ex_top (pair_idx 2 i j) with Some _ => true | None => false end)
+                      (strings (repeat 2 2))) (strings (repeat 2 2)) = true.
+Proof. exact expect_example. Qed.
